@@ -103,12 +103,12 @@ class Cell:
 class Graph:
     """real objects + the machine extracted from them"""
 
-    def __init__(self, values, flags_of_class, small=False, grads=None, dic=None):
+    def __init__(self, values, flags_of_class, small=False, grads=None, dic=None, route=0):
         self.values0 = {k: list(v) for k, v in values.items()}
         self.small = small
         self.registration_failures = []
         if dic is None:
-            self.dic = G.build(values, small=small, grads=grads)
+            self.dic = G.build(values, small=small, grads=grads, route=route)
             # registration bookkeeping of every post-construction attribute assignment of the build
             for owner, attr, new, old in G.ASSIGNMENTS:
                 if not any(l is owner for l in listeners_of(new)):
@@ -242,6 +242,15 @@ class Graph:
             elif n in ("ConstantSiteModel", "InvariantSiteModel", "WeibullSiteModel"):
                 add(j, 0, [(p, 0, 1) for p, _ in held(o)],
                     lambda x: (x.rates(), x.probabilities()), "rates")
+            elif n == "JC69":
+                add(j, 0, [], lambda x: (x.q(), x.frequencies), "q")
+            elif n in ("ExponentialCoalescentModel",):
+                add(j, 0, [(o.tree_model, 0, 1)] + [(p, 0, 1) for p in o._parameters.values()],
+                    lambda x: (x(),), "__call__")
+            elif n in ("MultivariateNormal", "BayesianBridge"):
+                add(j, 0, [(p, 0, 1) for p in o._parameters.values()], lambda x: (x(),), "__call__")
+            elif n == "CTMCScale":
+                add(j, 0, [(o.tree_model, bl_tmpl(o.tree_model), 1), (o.x, 0, 1)], lambda x: (x(),), "__call__")
             elif n in ("HKY", "GTR", "MG94"):
                 add(j, 0, [(p, 0, 1) for p, _ in held(o) if self.idx[id(p)] < j and (j, self.idx[id(p)]) not in self.leftover],
                     lambda x: (x.q(), x.frequencies), "q")
@@ -387,7 +396,8 @@ class Graph:
         key = (self.small, tuple(self.leaf_key(c) for c in self.leaf_cells))
         want = _FRESH.get(key)
         if want is None:
-            fresh_g = Graph(self.leaf_values_full(), self.flags_of_class, small=self.small, grads=self.leaf_grads())
+            # (the rebuild is written differently from the graph under test: reversed key order, full type names)
+            fresh_g = Graph(self.leaf_values_full(), self.flags_of_class, small=self.small, grads=self.leaf_grads(), route=1)
             if fresh_g.cls != self.cls:
                 raise ExtractionError("fresh rebuild has a different node list")
             want = fresh_g.eval_all()
@@ -403,6 +413,13 @@ class Graph:
 
 
 _FRESH = {}
+
+
+def bitwise(a, b):
+    torch = _torch()
+    ta = [x for x in a if not isinstance(x, str)]
+    tb = [x for x in b if not isinstance(x, str)]
+    return len(ta) == len(tb) and all(x.shape == y.shape and torch.equal(x, y) for x, y in zip(ta, tb))
 
 
 def same(a, b):
@@ -529,6 +546,19 @@ class Runner:
                         self.copy_not_isomorphic = "the copy shares objects with the original"
                     self.g = g = g2
                     self.operators = {}
+                self.ops_txt.append("")
+            elif kind == "device":
+                # model.cpu() / model.to("cpu") / model.to(torch.float64): moves that leave every value unchanged here
+                o = g.dic[op["target"]]
+                try:
+                    if op["how"] == "cpu":
+                        o.cpu()
+                    elif op["how"] == "tocpu":
+                        o.to("cpu")
+                    else:
+                        o.to(torch.float64)
+                except Exception as e:  # noqa: BLE001
+                    raised, exc = True, exc_info(e)
                 self.ops_txt.append("")
             elif kind == "reassign":
                 # t = p.tensor; t[i] = v; p.tensor = t  — in-place edit of the held tensor, then the SAME tensor
@@ -889,11 +919,16 @@ def run_history(flags_of_class, drv, hist, want_model=True, small=False):
 
 def shrink(flags_of_class, drv, hist, pred, small=False):
     """shortest sub-history (greedy one-at-a-time removal to a fixpoint) on which `pred(result)` holds"""
+    import time
+
     cur = list(hist)
     changed = True
-    while changed and len(cur) > 1:
+    t_end = time.time() + 20.0  # bounded: the check must still report promptly after a finding
+    while changed and len(cur) > 1 and time.time() < t_end:
         changed = False
         for i in range(len(cur) - 1, -1, -1):
+            if time.time() > t_end:
+                break
             cand = cur[:i] + cur[i + 1:]
             try:
                 r = run_history(flags_of_class, drv, cand, want_model=drv is not None, small=small)
@@ -998,10 +1033,10 @@ def run(ck: Check):
     reported = set()
     first_mismatch = None
 
-    def handle(hist, bucket, small=False):
+    def handle(hist, bucket, small=False, model=True):
         nonlocal first_mismatch
         try:
-            r = run_history(flags_of_class, drv, hist, small=small)
+            r = run_history(flags_of_class, drv if model else None, hist, small=small, want_model=model)
         except ExtractionError as e:
             ck.mismatch("graph extraction failed", str(e))
             return None
@@ -1024,7 +1059,7 @@ def run(ck: Check):
             ck.mismatch("model and implementation disagree", first_mismatch)
         if r["violation"] is not None:
             sig = vio_sig(r["violation"])
-            if sig not in found:
+            if sig not in found and len(found) < 8:
                 sm = shrink(flags_of_class, None, r["done"],
                             lambda x: x["violation"] is not None and vio_sig(x["violation"]) == sig, small=small)
                 rr = run_history(flags_of_class, None, sm, want_model=False, small=small)
@@ -1137,6 +1172,28 @@ def run(ck: Check):
         for u in rng.sample(pool, 12 if ck.thorough() else 1):
             handle([{"op": "evalall"}, {"op": "deepcopy", "roots": roots}, dict(u), {"op": "deepcopy"}, dict(u)],
                    "deepcopy/sub-graph")
+    # device / dtype moves that leave every value unchanged (cpu(), to("cpu"), to(float64)) as operations: they must
+    # not raise and nothing may go stale afterwards or after a following update.  (Oracle only: which flags a move
+    # sets is not part of the machine.)
+    for tgt, how in (("joint", "cpu"), ("joint", "to64"), ("joint_out", "tocpu"), ("like_t", "cpu"), ("kappa", "cpu"),
+                     ("cat_ab", "to64"), ("site_w", "cpu"), ("ftree", "cpu"), ("gtr_rates", "cpu"), ("ctmc", "to64")):
+        u = rng.choice(pool)
+        handle([{"op": "evalall"}, {"op": "device", "target": tgt, "how": how}, dict(u)], "device-move", model=False)
+    # evaluation under torch.no_grad(), with autograd enabled, and with leaves requiring grad must agree bitwise
+    try:
+        ga = Graph(G.initial_values(), flags_of_class)
+        with torch.no_grad():
+            va = ga.eval_all()
+        vb = Graph(G.initial_values(), flags_of_class).eval_all()
+        vc = Graph(G.initial_values(), flags_of_class, grads=[x for x in GRADABLE if x in G.LEAVES]).eval_all()
+        bad = [ga.describe_cell(c) for c in range(len(ga.cells))
+               if not (bitwise(va[c], vb[c]) and bitwise(vb[c], vc[c]))]
+        ck.case(key=("grad-modes",), bucket="grad-modes", sample={"cells": len(ga.cells), "differing": bad[:5]})
+        if bad:
+            ck.mismatch("values differ between torch.no_grad(), autograd enabled and leaves requiring grad", bad[:10])
+            found.setdefault("grad-mode:value", ({"class": "grad-mode", "kind": "value", "cells": bad[:10]}, [], False))
+    except ExtractionError as e:
+        ck.mismatch("graph extraction failed", str(e))
     # the plain TimeTreeModel seen only through node_heights by its coalescent
     for upd in ("assign", "inplace", "reassign"):
         v = value_for(g0, "heights3", rng)
@@ -1174,8 +1231,17 @@ def run(ck: Check):
     if not ck.thorough():
         rng.shuffle(depth2)
         depth2 = depth2[:80]
-    for a, b in depth2:
-        handle([dict(a), dict(b)], "exhaustive-small/len2", small=True)
+    for i, (a, b) in enumerate(depth2):
+        if i % 2 == 1:
+            # DTYPE REGIME: torch's own default (float32) with float64 parameters, for every other history
+            torch.set_default_dtype(torch.float32)
+            _FRESH.clear()
+        try:
+            handle([dict(a), dict(b)], "exhaustive-small/len2" + ("/default-float32" if i % 2 else ""), small=True)
+        finally:
+            if i % 2 == 1:
+                torch.set_default_dtype(torch.float64)
+                _FRESH.clear()
         if not ck.thorough() and ck_time(ck) > 78:
             break
     if ck.thorough():
@@ -1189,7 +1255,10 @@ def run(ck: Check):
 
     # ---- verdict
     for sig, (v, hist, on_small) in sorted(found.items()):
-        what = (f"{v['class']}: " + (f"parameter update raises {v['exc'][0]} ({v['exc'][2]})" if v["kind"] == "raises"
+        if v["kind"] == "value":
+            ck.violation(sig, f"values differ between grad modes: {v['cells']}", {"violation": v})
+            continue
+        what = (f"{v['class']}: " + (f"public operation ({v["op"]["op"]}) raises {v['exc'][0]} ({v['exc'][2]})" if v["kind"] == "raises"
                                      else f"getter raises {v['exc']}" if v["kind"] == "getter-raises"
                                      else f"{v['cell']} returns a stale value (also stale: {len(v['all']) - 1} downstream)")
                 + f" after a history of {len(hist)} operation(s)")
